@@ -147,7 +147,7 @@ def ss(stmts):
         elif k == "call": out.append("(call %s (%s))" % (s[1], " ".join(se(a) for a in s[2])))
     return "(" + " ".join(out) + ")"
 
-def gen_case(rng):
+def gen_case(rng, sharp=True):
     g = G(rng)
     nf = rng.choice([0, 0, 1, 2, 3])
     for i in range(nf):
@@ -157,7 +157,14 @@ def gen_case(rng):
     fsrc = " ".join("FUNCTION %s(%s){ %s }" % (f["name"], ", ".join(p if d is None else "%s=%d" % (p, d) for p, d in f["params"]), ps(flat(f["body"]))) for f in g.funcs)
     fsexp = "(" + " ".join("(fn %s (%s) %s)" % (f["name"], " ".join("(%s %s)" % (p, 0 if d is None else d) for p, d in f["params"]), ss(flat(f["body"]))) for f in g.funcs) + ")"
     src = (fsrc + " " if fsrc else "") + ps(prog)
-    return src, "(%s %s)" % (fsexp, ss(prog)), g.nloops + g.ncalls
+    sx = ss(prog)
+    if sharp and rng.random() < 0.25:
+        # a sharpened note written before the definitions on the same line (`#` also begins the line-comment forms `##`, `# `, `#-`,
+        # but only at command position): the definitions after it are still definitions
+        txt, key = rng.choice([("c# ", 61), ("c## ", 62), ("c#- ", 60), ("d# ", 63), ("e#-c ", None)])
+        if key is None: src = "e#- c " + src; sx = "((note 64) (note 60) " + sx[1:]
+        else: src = txt + src; sx = "((note %d) " % key + sx[1:]
+    return src, "(%s %s)" % (fsexp, sx), g.nloops + g.ncalls
 
 FIXED = [
     ("FOR(INT I=0;I<10;I++){ IF(I==3){BREAK} } PRINT(I)", "(() ((for I 0 (b 9 I 10) (inc I 1) ((if (b 5 I 3) ((break)) ()))) (print I)))"),
@@ -216,7 +223,7 @@ def streams(tier, rng, P, only=None, cases=None):
         cs = []
         n = 8000 if big else 1000
         for i in range(n):
-            src, sx, nt_ = gen_case(rng)
+            src, sx, nt_ = gen_case(rng, sharp=False)
             cs.append(dict(req="scriptrun " + hx(src), src=src, show=src, nt=nt_, key="x%d" % i))
         for j, (src, sx) in enumerate(FIXED):
             cs.append(dict(req="scriptrun " + hx(src), src=src, show=src, nt=1, key="xfixed%d" % j))
